@@ -7,6 +7,7 @@ import (
 	"sort"
 
 	"github.com/DataDog/sketches-go/ddsketch"
+	"github.com/DataDog/sketches-go/ddsketch/store"
 
 	"verif/sim/engine"
 	"verif/sim/refmodel"
@@ -23,6 +24,8 @@ type chmapInfo struct {
 	scale     float64
 	identity  bool
 	srcBefore *skSnap
+	// the stores the caller supplied to the plain variant (it keeps these handles)
+	posArg, negArg store.Store
 }
 
 func (x *fleetExec) chmap(e engine.Event, nd *knode, sig string) bool {
@@ -98,10 +101,12 @@ func (x *fleetExec) chmap(e engine.Event, nd *knode, sig string) bool {
 		nm = nd.mapping
 		spec = &dst.spec
 	}
+	var posArg, negArg store.Store
 	x.lib("ChangeMapping", sig, func() {
 		switch s := nd.real.(type) {
 		case *ddsketch.DDSketch:
-			dst.real = s.ChangeMapping(nm, newRealStore(spec.Store, spec.N), newRealStore(spec.Store, spec.N), scale)
+			posArg, negArg = newRealStore(spec.Store, spec.N), newRealStore(spec.Store, spec.N)
+			dst.real = s.ChangeMapping(nm, posArg, negArg, scale)
 		case *ddsketch.DDSketchWithExactSummaryStatistics:
 			dst.real = s.ChangeMapping(nm, providerFor(spec.Store, spec.N), scale)
 		}
@@ -137,7 +142,7 @@ func (x *fleetExec) chmap(e engine.Event, nd *knode, sig string) bool {
 	}
 	x.nodes[e.M] = dst
 	x.order = append(x.order, e.M)
-	x.lastChmap = &chmapInfo{src: nd, dst: dst, scale: scale, identity: identity}
+	x.lastChmap = &chmapInfo{src: nd, dst: dst, scale: scale, identity: identity, posArg: posArg, negArg: negArg}
 	x.st.ProbeIf(identity, "chmap-identity")
 	x.st.Probe("chmap-" + nd.spec.Map + "-to-" + spec.Map)
 	return true
@@ -185,6 +190,17 @@ func c17Check(x *fleetExec, info *chmapInfo, src *skSnap, sig string) {
 			x.fail("identity-is-copy", sig, "with an equal mapping and scale 1 the result is not an exact copy: "+diff, src.String(), res.String())
 		}
 		return
+	}
+	if info.posArg != nil {
+		// the caller's handles: positive content was to go into positiveStore, negative into negativeStore
+		x.st.Oracle("sides-as-supplied")
+		// (bins only: a total of non-dyadic weights is a sum in iteration order and may differ between two calls)
+		if p := x.snapStore(info.posArg, "supplied-positive-store"); refmodel.DiffBins(res.Pos.Bins, p.Bins) != "" {
+			x.fail("sides-as-supplied", sig, "the store supplied as positiveStore does not hold the positive side of the result: "+refmodel.DiffBins(res.Pos.Bins, p.Bins), res.Pos.String(), p.String())
+		}
+		if n := x.snapStore(info.negArg, "supplied-negative-store"); refmodel.DiffBins(res.Neg.Bins, n.Bins) != "" {
+			x.fail("sides-as-supplied", sig, "the store supplied as negativeStore does not hold the negative side of the result: "+refmodel.DiffBins(res.Neg.Bins, n.Bins), res.Neg.String(), n.String())
+		}
 	}
 	x.st.Oracle("zero-exact")
 	if fbits(res.Zero) != fbits(src.Zero) {
